@@ -450,32 +450,6 @@ def reorg_inv(F):
             names[st["pat"]["name"]] = st["pat"]["hid"]
     if set(names) != {"num_imported", "num_deleted"}:
         raise CheckError("anchor changed: reorganise_generic no longer keeps num_imported/num_deleted (re-read the algorithm)")
-    leaves = []
-
-    def rec(node, conds):
-        if node.get("k") == "If":
-            c = node["cond"]
-            desc = snippet(_repo(), fn["file"], c["sp"])
-            rec(node["then"], conds + [(desc, True)])
-            if "else" in node:
-                rec(node["else"], conds + [(desc, False)])
-            return
-        if node.get("k") == "Block":
-            ifs = [st for st in node["stmts"] if (st.get("e") or {}).get("k") == "If"]
-            tail_if = node.get("expr") is not None and node["expr"].get("k") == "If"
-            if not ifs and not tail_if:
-                leaves.append((conds, node))
-                return
-            # statements before/after nested ifs belong to all sub-leaves: keep it simple, require pure nesting
-            plain = [st for st in node["stmts"] if (st.get("e") or {}).get("k") != "If"]
-            if plain:
-                leaves.append((conds, {"k": "Block", "stmts": plain}))
-            for st in ifs:
-                rec(st["e"], conds)
-            if tail_if:
-                rec(node["expr"], conds)
-            return
-
     # the for-loop body
     loop_body = None
     for m in walk(fn["body"]):
@@ -488,45 +462,56 @@ def reorg_inv(F):
                     break
     if loop_body is None:
         raise CheckError("anchor changed: reorganise_generic has no for loop")
-    rec(loop_body, [])
-    r.count("branches", len(leaves))
-    for conds, blk in leaves:
-        removes = inserts = pushes = 0
-        d_imp = d_del = 0
-        bad_idx = []
-        for n in walk(blk):
-            if n.get("k") == "MethodCall" and n["method"] in ("remove", "insert", "push") and (place_path(n["recv"]) or "") == "items":
-                if n["method"] == "remove":
-                    removes += 1
-                    s = snippet(_repo(), fn["file"], n["args"][0]["sp"])
-                    if "idx-num_deleted" not in s:
-                        bad_idx.append(s)
-                elif n["method"] == "insert":
-                    inserts += 1
-                    s = snippet(_repo(), fn["file"], n["args"][0]["sp"])
-                    if s != "num_imported":
-                        bad_idx.append("insert at " + s)
-                else:
-                    pushes += 1
-            if n.get("k") == "AssignOp" and peel(n["rhs"]).get("k") == "Lit" and lit_int(peel(n["rhs"])["lit"]) == 1:
-                l = peel(n["lhs"])
-                d = 1 if n["op"].startswith("+") else -1
-                if l.get("k") == "Path" and l["res"].get("hid") == names["num_imported"]:
-                    d_imp += d
-                if l.get("k") == "Path" and l["res"].get("hid") == names["num_deleted"]:
-                    d_del += d
-        in_prefix = any("idx<orig_num_imported" in c and pol for c, pol in conds)
-        label = " ∧ ".join(("" if pol else "¬") + c for c, pol in conds)
-        if removes + inserts + pushes == 0 and d_imp == 0 and d_del == 0:
+
+    # enumerate every path through one iteration (handles nesting, else-if chains, `continue`, shared tails)
+    def classify(n):
+        if n.get("k") == "MethodCall" and n["method"] in ("remove", "insert", "push") and (place_path(n["recv"]) or "") == "items":
+            if n["method"] == "push":
+                return "push"
+            return "%s:%s" % (n["method"], snippet(_repo(), fn["file"], n["args"][0]["sp"]))
+        if n.get("k") == "AssignOp" and peel(n["rhs"]).get("k") == "Lit" and lit_int(peel(n["rhs"])["lit"]) == 1:
+            l = peel(n["lhs"])
+            d = "+1" if n["op"].startswith("+") else "-1"
+            if l.get("k") == "Path" and l["res"].get("hid") == names["num_imported"]:
+                return "imp" + d
+            if l.get("k") == "Path" and l["res"].get("hid") == names["num_deleted"]:
+                return "del" + d
+        return None
+
+    def branch_label(node):
+        desc = snippet(_repo(), fn["file"], node["cond"]["sp"])
+        return ("T:" + desc, "F:" + desc)
+
+    seen_paths = set()
+    for ev, st in paths(loop_body, classify, branch_label=branch_label):
+        if st not in ("fall", "cont"):
             continue
+        seen_paths.add(ev)
+    r.count("branches", len(seen_paths))
+    judged = 0
+    for ev in sorted(seen_paths):
+        conds = [e for e in ev if e.startswith(("T:", "F:"))]
+        ops = [e for e in ev if not e.startswith(("T:", "F:"))]
+        if not ops:
+            continue
+        judged += 1
+        removes = sum(1 for e in ops if e.startswith("remove:"))
+        inserts = sum(1 for e in ops if e.startswith("insert:"))
+        pushes = ops.count("push")
+        d_imp = ops.count("imp+1") - ops.count("imp-1")
+        d_del = ops.count("del+1") - ops.count("del-1")
+        bad_idx = [e for e in ops if e.startswith("remove:") and "idx-num_deleted" not in e] + [e for e in ops if e.startswith("insert:") and e != "insert:num_imported"]
+        in_prefix = any(c.startswith("T:idx<orig_num_imported") for c in conds)
+        label = " ∧ ".join(("" if c[0] == "T" else "¬") + c[2:] for c in conds)
         want_del = removes - inserts
         want_imp = (-1 if (in_prefix and removes > 0) else 0) + (1 if inserts > 0 else 0)
         ok = d_del == want_del and d_imp == want_imp and not bad_idx
-        r.ob(ok, {"branch": label, "remove": removes, "insert": inserts, "push": pushes, "Δnum_imported": d_imp, "Δnum_deleted": d_del})
+        r.ob(ok, {"path": label, "remove": removes, "insert": inserts, "push": pushes, "Δnum_imported": d_imp, "Δnum_deleted": d_del})
         if not ok:
-            r.violate("%s | %s" % (fn["path"], label), F.loc(fn, blk if "sp" in blk else None),
-                      "branch [%s] does remove×%d insert×%d push×%d with Δnum_imported=%d (needs %d) and Δnum_deleted=%d (needs %d)%s: the position bookkeeping of reorganise_generic is broken for every later element" % (
+            r.violate("%s | %s" % (fn["path"], label), F.loc(fn),
+                      "path [%s] does remove×%d insert×%d push×%d with Δnum_imported=%d (needs %d) and Δnum_deleted=%d (needs %d)%s: the position bookkeeping of reorganise_generic is broken for every later element" % (
                           label, removes, inserts, pushes, d_imp, want_imp, d_del, want_del, ("; bad index " + str(bad_idx)) if bad_idx else ""))
+    r.count("mutating_paths", judged)
     return r
 
 
